@@ -155,6 +155,20 @@ Fixpoint run_seq (P : lparams) (m mr : dmap) (flip : bool) (L : lays) (ops : lis
       end
   end.
 
+(** steps on ONE *Graph, each with the graph's content at that moment (as the
+    harness holds it): Reverse, Reverse twice, RevLayout's verdict *)
+Inductive gstep :=
+| GSRev (cur got : graph)
+| GSRev2 (cur got : graph)
+| GSLay (cur : graph) (v : N).
+
+Definition gstep_ok (sh : N -> list name -> list name) (s : gstep) : bool :=
+  match s with
+  | GSRev cur got => leqb entry_eqb (by_key (rev_graph sh cur)) got
+  | GSRev2 cur got => leqb entry_eqb (rev2 sh cur) got
+  | GSLay cur v => N.eqb (vclass (check_dag sh (rev_graph sh cur))) v
+  end.
+
 Record opsobs := mkO {
   oo_rm : name; oo_rm_obs : gobs;
   oo_sub : list name; oo_sub_obs : gobs;
@@ -169,6 +183,7 @@ Record opsobs := mkO {
   oo_clo_n : nat * nat * nat;           (* Nedge, Ncrit, Nlayer *)
   oo_seq_rev : bool;                    (* the call sequence starts with RevLayout (else NewMap) *)
   oo_seq : list sop;                    (* then: Map.Reverse / LayoutMap with the view it returned *)
+  oo_gseq : list gstep;                 (* calls on ONE *Graph that the caller edits in between *)
 }.
 
 Definition sets_eqb (a b : nobs) : bool :=
@@ -185,6 +200,7 @@ Definition map_sets (m : dmap) : list nobs :=
       (sort_names (keys g)).
 
 Definition check_ops (sh : N -> list name -> list name) (g : graph) (oo : opsobs) : bool :=
+  forallb (gstep_ok sh) (oo_gseq oo) &&
   gobs_ok sh (g_remove g (oo_rm oo)) (oo_rm_obs oo) &&
   gobs_ok sh (g_subgraph (fun k => memb k (oo_sub oo)) g) (oo_sub_obs oo) &&
   match g_rename (aget 0%N (oo_ren oo))
